@@ -17,7 +17,7 @@ SEPARATOR = '-' * 80
 _ALG = re.compile(r'^\((kex|key|enc|mac|aut)\) (.*)$')
 _NOTE = re.compile(r'^(.*?)\s+-- \[(fail|warn|info)\] (.*)$')
 _CONT = re.compile(r'^\s+`- \[(fail|warn|info)\] (.*)$')
-_SIZE = re.compile(r'^(\S+) \((\d+)-bit(?: cert/(\d+)-bit (\S+) CA)?\)$')
+_SIZE = re.compile(r'^(\S+) \((\d+)-bit(?: cert/(\d+)-bit (.+?) CA)?\)$', re.S)      # the CA type is the peer's text: anything
 _REC = re.compile(r'^\(rec\) ([-+!])(\S+)\s*-- (kex|key|enc|mac) algorithm to (remove|append|change)(?: \((.*)\))? ?$')
 
 
